@@ -20,7 +20,7 @@
    never remembered as a load, so once everything is readable again the lazy index answers like the
    fully loaded one, whatever was accessed while it was not. *)
 From Coq Require Import NArith List Bool.
-From DvcData Require Import Base.Val Model.IndexLoad Proofs.IndexLoadBase Proofs.IndexLoadProofs Proofs.IndexLoadMore Proofs.IndexLoadThms Proofs.IndexLoadExplicit Proofs.IndexLoadDecide Proofs.IndexLoadFaults.
+From DvcData Require Import Base.Val Model.IndexLoad Proofs.IndexLoadBase Proofs.IndexLoadProofs Proofs.IndexLoadMore Proofs.IndexLoadThms Proofs.IndexLoadExplicit Proofs.IndexLoadDecide Proofs.IndexLoadFaults Gen.IdxLoad Proofs.IndexLoadTie.
 Import ListNotations.
 Open Scope N_scope.
 
@@ -149,3 +149,47 @@ Theorem C17_failed_load_retries : forall E i ops1 E1 i1 l ops2,
   answers (unhide E) i1 ops2 = answers (unhide E) (load_all (unhide E) i) ops2.
 Proof. exact retries. Qed.
 Print Assumptions C17_failed_load_retries.
+
+(* ---- the tie to the source: the loading rules of the model ARE those of index/index.py as the
+   translator reads them from /repo on every run (Gen/IdxLoad.v, unit idxload) ---- *)
+
+(* [loadable] is the chain of `if <test>: return` guards of DataIndex._load *)
+Theorem C17_loadable_is_source_guard :
+  forall E k e,
+    loadable E (k, e) = load_proceeds (e_loaded e) (has_meta e) (isdir_raw e) (under_sp E k).
+Proof. exact loadable_is_source_guard. Qed.
+Print Assumptions C17_loadable_is_source_guard.
+
+(* the roles are tried in the source's order *)
+Theorem C17_roles_load_is_source_order : forall E, roles_load E = map (role_store E) load_roles.
+Proof. exact roles_load_is_source_order. Qed.
+Print Assumptions C17_roles_load_is_source_order.
+
+(* the directory entries a load creates are exactly those of the source's ancestor loop: every proper
+   non-empty prefix of every listed key, at any depth *)
+Theorem C17_proper_inits_is_source_ancestors :
+  forall (k p : key), In p (proper_inits k) <-> In p (ancestors k).
+Proof. exact proper_inits_is_source_ancestors. Qed.
+Print Assumptions C17_proper_inits_is_source_ancestors.
+
+Theorem C17_children_dirs_are_source_dirs :
+  forall (rows : list lrow) (p : key),
+    In p (flat_map (fun r => proper_inits (r_key r)) rows) <->
+    In p (flat_map (fun r => ancestors (r_key r)) rows).
+Proof. exact children_dirs_are_source_dirs. Qed.
+Print Assumptions C17_children_dirs_are_source_dirs.
+
+(* a load that succeeds passed the source's refusal guard; the two entry constructors *)
+Theorem C17_listing_needs_source_guard :
+  forall E e, listing_of E e <> None ->
+    ols_refuses (hi_truthy (e_hash e)) (hi_isdir (e_hash e)) = false.
+Proof. exact listing_needs_source_guard. Qed.
+Print Assumptions C17_listing_needs_source_guard.
+
+Theorem C17_entry_constructors_are_source :
+  e_loaded dir_entry = dir_entry_loaded /\ isdir_raw dir_entry = dir_entry_isdir /\
+  hi_truthy (e_hash dir_entry) = dir_entry_has_hash /\
+  (forall r, e_loaded (file_entry r) = child_loaded) /\
+  (forall r, e_hash (file_entry r) = Some (r_hash r)).
+Proof. exact entry_constructors_are_source. Qed.
+Print Assumptions C17_entry_constructors_are_source.
